@@ -52,8 +52,10 @@ add("C05", "other",
     "(totality, zero division, index bounds, shifts); and the compiler model never panics (CompileProofs.v, CompileLoops.v: a Hoare "
     "logic over the compiler monad): on every tree of the shape the parser and the resolver produce, from every state and in every "
     "flag context, both entry points return code or the refusal of an oversize program — every back-patch hits an instruction "
-    "emitted before, every operand selector exists, every reference is a variable; that the trees of the run have that shape is "
-    "evaluated on every resolved tree (chk_wfb). Not proved: that compiled code never drives the VM into an internal fault. "
+    "emitted before, every operand selector exists, every reference is a variable; and (ParserShape.v) every tree the grammar model "
+    "returns has that shape and the resolver model keeps it, so for every input text, every tree parsed from it and every compiler "
+    "state the compiler returns code or a refusal (C05_no_input_makes_the_compiler_panic); the shape is also evaluated on every "
+    "resolved tree of the run (chk_wfb). Not proved: that compiled code never drives the VM into an internal fault. "
     "Decided each run on adversarial programs run on the real code with panics recovered and a time "
     "limit: every operator x 21 operands of every type in 23 statement shapes, the generator's adversarial profile, token-mutated "
     "valid sessions; any recovered panic or undocumented error is a violation; the VM model (each Go panic site = Abort) must agree.",
